@@ -499,6 +499,9 @@ Pattern:
 		case '|', WORD:
 			l.emit(tok)
 		case ')':
+			if l.bquote {
+				return l.lexToken(tok)
+			}
 			l.emit(')')
 			if !l.linebreak() {
 				return nil
@@ -634,7 +637,7 @@ func (l *lexer) lexDo() action {
 
 func (l *lexer) lexFuncDef() action {
 	l.emit('(')
-	if tok := l.scanToken(); tok != ')' {
+	if tok := l.scanToken(); tok != ')' || l.bquote {
 		return l.lexToken(tok)
 	}
 	l.emit(')')
@@ -683,6 +686,11 @@ func (l *lexer) lexToken(tok int) action {
 		l.bquote = false
 		if l.cmdSubst == '`' && len(l.stack) == 1 && !bquote {
 			l.error(l.pos, "syntax error: unexpected '"+ops[tok]+"'")
+			return nil
+		}
+		if bquote && len(l.stack) != 1 {
+			// and a backquote closes nothing else
+			l.error(l.pos, "syntax error: unexpected '`'")
 			return nil
 		}
 		if l.cmdSubst != 0 && len(l.stack) == 1 {
